@@ -244,10 +244,17 @@ func c10Scenarios(tier mc.Tier) []mc.Scenario {
 
 func c10Forge(w *crlWorld, entries []c10Entry, delta bool, hasDelta bool) *x509.RevocationList {
 	spec := pki.CRLSpec{Issuer: w.root, Number: 10, NextUpdate: pki.Now.Add(24 * time.Hour)}
+	spec.ThisUpdate = pki.Now.Add(-time.Hour)
 	if delta {
 		ind := int64(10)
 		spec.Number = 11
 		spec.DeltaInd = &ind
+		// what ties a delta to its base are the CRL numbers, not the issuing times: deltas with an odd number of entries are issued
+		// (backdated) before their base, the others after it
+		spec.ThisUpdate = pki.Now.Add(-30 * time.Minute)
+		if len(entries)%2 == 1 {
+			spec.ThisUpdate = pki.Now.Add(-3 * time.Hour)
+		}
 	}
 	for _, e := range entries {
 		ce := pki.CRLEntry{Serial: big.NewInt(424242), Reason: e.reason, RevokedAt: c10T[e.tIdx], UnknownCrit: e.crit, InvalidityCritical: e.invCrit}
@@ -292,6 +299,9 @@ func c10BodyVia(c *mc.Ctx, alpha []c10Entry, L, split int, stSet bool, fallback 
 	}
 	// a delta CRL exists iff at least one entry is placed after the split, or split < L
 	hasDelta := split < L
+	if hasDelta {
+		c.Cover(fmt.Sprintf("delta-issued-before-its-base:%v", (L-split)%2 == 1))
+	}
 	base := c10Forge(w, entries[:split], false, hasDelta)
 	var delta *x509.RevocationList
 	if hasDelta {
